@@ -386,12 +386,26 @@ def config_from_fits(filename: str) -> NssConfig:
     def s(key: str):
         return v("simulation " + key)
 
+    # the spectrum is a tagged union: its header keywords depend on its id
+    if s("spectrum id") == "powerspectrum":
+        spectrum = {
+            "id": s("spectrum id"),
+            "index": s("spectrum index"),
+            "lower_bound": s("spectrum lower_bound"),
+            "upper_bound": s("spectrum upper_bound"),
+        }
+    else:
+        spectrum = {
+            "id": s("spectrum id"),
+            "log_nu_energy": s("spectrum log_nu_energy"),
+        }
+
     c = {
         "detector": {
             "initial_position": {
                 "altitude": d("initial_position altitude"),
                 "latitude": d("initial_position latitude"),
-                "longitude": d("initial_position latitude"),
+                "longitude": d("initial_position longitude"),
             },
             "name": d("name"),
             "optical": {
@@ -418,10 +432,7 @@ def config_from_fits(filename: str) -> NssConfig:
             "max_azimuth_angle": s("max_azimuth_angle"),
             "max_cherenkov_angle": s("max_cherenkov_angle"),
             "mode": s("mode"),
-            "spectrum": {
-                "id": s("spectrum id"),
-                "log_nu_energy": s("spectrum log_nu_energy"),
-            },
+            "spectrum": spectrum,
             "tau_shower": {
                 "etau_frac": s("tau_shower etau_frac"),
                 "id": s("tau_shower id"),
